@@ -14,7 +14,7 @@ def gen_ops(rng, proto, nops, with_timeout):
         if rng.random() < 0.12:
             # set_timeout / reset_timeout on the blocking context (the async caller wraps its calls accordingly)
             with_timeout = rng.random() < 0.7
-            ops.append("timeout %s" % (rng.choice(["200", "250", "300"]) if with_timeout else "-"))
+            ops.append("timeout %s" % (rng.choice(["800", "1000", "1200"]) if with_timeout else "-"))
             continue
         if rng.random() < 0.15:
             cur = rng.randrange(256)
@@ -83,7 +83,7 @@ class PROP(Prop):
             for i in range(n):
                 with_timeout = rng.random() < 0.5
                 ops, slave = gen_ops(rng, proto, rng.randrange(1, 7), with_timeout)
-                tmo = "250" if with_timeout else "-"
+                tmo = "1000" if with_timeout else "-"
                 body = "%s %s %s %s" % (proto, tmo, "-" if slave is None else str(slave), " ; ".join(ops))
                 gid = "%s%d" % (proto, i)
                 cs.append(Case("SYNC " + body, {"g": gid, "mode": "sync", "nops": len(ops)}))
@@ -99,7 +99,7 @@ class PROP(Prop):
                     tmo = "-"
                     ops.insert(rng.randrange(0, len(ops)), "timeout max")
                 else:
-                    tmo = "250"
+                    tmo = "1000"
                     ops.insert(rng.randrange(0, len(ops)), "timeout max")
                 body = "%s %s %s %s" % (proto, tmo, "-" if slave is None else str(slave), " ; ".join(ops))
                 # for the model a timeout that cannot fire is no timeout
